@@ -124,14 +124,18 @@ class Mod:
             apply_attribute_renames(self.tree, renames)
         self.inlined_sites = 0
         self.inlined_helpers = set()
+        self.dropped_functions = {}   # module-level helpers removed from the analysed tree; still callable from other modules
         if os.environ.get("VERIF_NO_NORMALIZE") != "1":
-            from .normalize import normalize_module
+            from .normalize import imported_private_helpers, normalize_module
 
-            self.inlined_sites, self.inlined_helpers = normalize_module(self.tree)
+            self.inlined_sites, self.inlined_helpers = normalize_module(self.tree, imported_private_helpers(self.tree, path, renames))
             if self.inlined_helpers:
                 self._drop_dead_helpers()
         self.classes = {}
         self.functions = {}
+        for st in getattr(self, "_dropped", ()):
+            if st.name not in self.dropped_functions:
+                self.dropped_functions[st.name] = FuncInfo(st, None, self)
         self.consts = {}
         self.imports = {}  # local name -> (module rel-ish, original name)
         for st in self.tree.body:
@@ -164,6 +168,7 @@ class Mod:
         def prune(body):
             return [st for st in body if not (isinstance(st, (ast.FunctionDef, ast.AsyncFunctionDef)) and st.name in dead)]
 
+        self._dropped = [st for st in self.tree.body if isinstance(st, (ast.FunctionDef, ast.AsyncFunctionDef)) and st.name in dead]
         self.tree.body = prune(self.tree.body)
         for n in ast.walk(self.tree):
             if isinstance(n, ast.ClassDef):
